@@ -525,6 +525,9 @@ func ParseDSL(data string) (*OpenFgaDslListener, *OpenFgaDslErrorListener) {
 	}
 
 	cleanedData := strings.TrimRight(strings.Join(cleanedLines, "\n"), "\n")
+	// the line ends dropped above may have been preceded by tabs: in front of them a tab is part of the NEWLINE token,
+	// left alone in front of EOF it would be a syntax error
+	cleanedData = strings.TrimRight(cleanedData, " \t\n")
 	inputStream := antlr.NewInputStream(cleanedData)
 	errorListener := newOpenFgaDslErrorListener()
 
